@@ -1,6 +1,7 @@
 package harness
 
 import (
+	"strings"
 	"bytes"
 	"fmt"
 	"os"
@@ -148,6 +149,56 @@ func c1Exchange(w *W, pat c1Pair, tran string, limit int, a, b *c1End, timeout t
 	var bodies [][]byte
 	for i := 0; i < k; i++ {
 		bodies = append(bodies, c1Body(w.Seed, i, c1Len(w, limit, pat.hdr, big)))
+	}
+	// full duplex: both ends send a burst at the same time (PAIR family: both
+	// directions are reliable). One connection then carries frames both ways
+	// at once - a sender and a receiver goroutine inside each pipe.
+	if burst && strings.HasSuffix(pat.a, "pair") || burst && strings.HasSuffix(pat.a, "pair1") {
+		if w.Choose(simrt.SProg, 2) == 0 {
+			w.Probe("full-duplex")
+			var back [][]byte
+			for i := 0; i < k; i++ {
+				back = append(back, c1Body(w.Seed+7, i, c1Len(w, limit, pat.hdr, big)))
+			}
+			sa := w.Do("sender a", func() (interface{}, error) {
+				for i, body := range bodies {
+					if err := a.send(w, body, uint32(i+1)); err != nil {
+						return i, err
+					}
+				}
+				return len(bodies), nil
+			})
+			sb := w.Do("sender b", func() (interface{}, error) {
+				for i, body := range back {
+					if err := b.send(w, body, uint32(i+1)); err != nil {
+						return i, err
+					}
+				}
+				return len(back), nil
+			})
+			ra := w.Do("receiver a", func() (interface{}, error) {
+				for i, body := range back {
+					if !expectAt(a, "duplex b->a", body, i) {
+						return i, nil
+					}
+				}
+				return len(back), nil
+			})
+			for i, body := range bodies {
+				if !expectAt(b, "duplex a->b", body, i) {
+					return
+				}
+			}
+			for _, c := range []*Call{sa, sb, ra} {
+				if !c.Wait(timeout) || c.Err != nil {
+					if !w.Failed() {
+						w.Failf("C01/send-failed:"+key, "full duplex: %s returned=%v err=%v", c.Label, c.Returned(), errName(c.Err))
+					}
+					return
+				}
+			}
+			return
+		}
 	}
 	if burst {
 		w.Probe("burst")
